@@ -254,6 +254,7 @@ type vhMint struct {
 	Ppk     map[string]uint
 	Active  string
 	Spent   []string // secrets of consumed inputs, in order
+	SpentAmounts []uint64
 	Signed  []cashu.BlindedMessage
 	Sigs    cashu.BlindedSignatures
 	Reqs    []vhReq
@@ -422,6 +423,7 @@ func vhHTTP(method, url string, body []byte) (int, []byte) {
 		}
 		for _, p := range req.Inputs {
 			m.Spent = append(m.Spent, p.Secret)
+			m.SpentAmounts = append(m.SpentAmounts, p.Amount)
 		}
 		return vhJSON(200, nut03.PostSwapResponse{Signatures: sigs})
 	case strings.HasPrefix(path, "/v1/mint/quote/bolt11/"):
@@ -485,6 +487,7 @@ func vhHTTP(method, url string, body []byte) (int, []byte) {
 			q.State = nut05.Paid
 			for _, p := range req.Inputs {
 				m.Spent = append(m.Spent, p.Secret)
+				m.SpentAmounts = append(m.SpentAmounts, p.Amount)
 			}
 		case 1:
 			q.State = nut05.Pending
@@ -531,9 +534,10 @@ func vhHTTP(method, url string, body []byte) (int, []byte) {
 
 // ---------------------------------------------------------------------------------------- wallet
 type vhWalletEnv struct {
-	w    *Wallet
-	db   *vhDB
-	mint *vhMint
+	w       *Wallet
+	db      *vhDB
+	mint    *vhMint
+	amounts map[string]uint64
 }
 
 var vhSeed = []byte("0123456789abcdef0123456789abcdef0123456789abcdef0123456789abcdef")
